@@ -46,7 +46,7 @@ def Rcv.deliver (r : Rcv) (x : Segment) : Rcv :=
 /-- `Read(p)`, `len(p) = n` -/
 def Rcv.read (r : Rcv) (n : Nat) : Rcv × List UInt8 × Bool :=
   let o := r.s.read n
-  ({ r with s := o.s, out := r.out ++ o.data }, o.data, o.status == .eof)
+  ({ r with s := o.s, out := r.out ++ o.data }, o.data, decide (o.status = .eof))
 
 /-- C03's ReceiveStream model (with receive-side flow controller `fc`) as the receive side of C01's pipe -/
 def recvStream (fc : FC) : Reassembler where
